@@ -89,6 +89,10 @@ type pathCtx struct {
 	gateTerms     []string
 	schedFill     func()
 	opaqueItoa    bool
+	urlStruct     bool
+	atomStrSeen   map[string]bool
+	atomStrTerms  []string
+	structDone    map[string]bool
 	pools         map[*value][]value // sync.Pool contents
 	hostTerms     []string // host terms whose host_name matters for rendering real URLs
 }
@@ -472,6 +476,12 @@ func (p *pathCtx) model() (map[string]interface{}, error) {
 		add(h)
 		add("(host_name " + h + ")")
 	}
+	if p.urlStruct {
+		for _, t := range p.atomStrTerms {
+			add(t)
+			add("(atom_str " + t + ")")
+		}
+	}
 	sched, _ := tape["schedule"].([]interface{})
 	for _, g := range sched {
 		if m, ok := g.(map[string]interface{}); ok {
@@ -525,6 +535,15 @@ func (p *pathCtx) model() (map[string]interface{}, error) {
 		classIdx[c] = len(classIdx)
 		return classIdx[c]
 	}
+	// with URL text structure on, an atom is rendered by the text the model gives it
+	classStr := map[string]string{}
+	if p.urlStruct {
+		for _, t := range p.atomStrTerms {
+			if sv, ok := decodeSMTString(vals["(atom_str "+t+")"]); ok {
+				classStr[vals[t]] = sv
+			}
+		}
+	}
 	// a host whose host_name is another atom is rendered with a port
 	hostnameOf := map[string]string{}
 	for _, h := range p.hostTerms {
@@ -533,6 +552,9 @@ func (p *pathCtx) model() (map[string]interface{}, error) {
 	hostName := func(hc string) string {
 		if l, ok := classLit[hc]; ok && l != "" {
 			return l
+		}
+		if sv, ok := classStr[hc]; ok {
+			return sv
 		}
 		if hn, ok := hostnameOf[hc]; ok && hn != hc {
 			if l, ok := classLit[hn]; ok && l != "" {
@@ -545,6 +567,9 @@ func (p *pathCtx) model() (map[string]interface{}, error) {
 	atomText := func(c string) string {
 		if l, ok := classLit[c]; ok {
 			return l
+		}
+		if sv, ok := classStr[c]; ok {
+			return sv
 		}
 		if hc, ok := hostOf[c]; ok {
 			return fmt.Sprintf("https://%s/iri/%d", hostName(hc), idx(c))
